@@ -560,6 +560,8 @@ def run_tier(prop, tier, verif_seed, workers, runs=None, budget_s=None):
     os.makedirs(os.path.join(VERIF, "evidence"), exist_ok=True)
 
     def write_ev():
+        if os.environ.get("RLSIM_NO_EVIDENCE"):
+            return  # development runs against scratch worktrees (seeded changes) must not rewrite the evidence of /repo
         with open(os.path.join(VERIF, "evidence", f"{prop}.json"), "w") as f:
             json.dump(ev, f, indent=1, default=_canon)
 
